@@ -378,6 +378,40 @@ def special_scenarios():
                                {"label": "later", "inputs": [["d", ["S", "dep", []]]], "logic": ["fn", "echo"]}]
                 sc["cell"] = f"steps-segment label={lab} site={site} other={cls}"
                 yield sc
+    # (2y) labels over the whole CRD alphabet (^\\w+$, 3..45 chars): digit-leading, all digits, underscores only,
+    #      45 characters, mixed case — referenced as steps.x where that is legal, else steps['x'] / steps["x"]
+    for lab in ("2fa_setup", "1st_pass", "007", "___", "_a1", "Mixed_Case9", "x" * 45, "9" * 45):
+        for cls in ("ok", "skip", "retry7", "permfail"):
+            for site in ("inputs", "skip", "foreach", "switch"):
+                sc = copy.deepcopy(base)
+                dep = {"label": "dep", "inputs": [["k", C(1)]], "logic": ["fn", "echo"]}
+                if site == "inputs":
+                    dep["inputs"].append(["v", ["S", lab, ["got", "n"]]])
+                elif site == "skip":
+                    dep["skip"] = ["S", lab, ["got", "f"]]
+                elif site == "foreach":
+                    dep["foreach"] = [["S", lab, ["got", "lol"]], "item"]
+                else:
+                    dep["logic"] = ["switch", ["S", lab, ["got", "sel"]], [["one", ["fn", "echo"], False]]]
+                sc["steps"] = [{"label": lab, "inputs": [[k, (C(cls) if k == "cls" else e)] for k, e in src_inputs]
+                                + [["f", C(False)], ["sel", C("one")]], "logic": ["fn", "bycls"]}, dep,
+                               {"label": "000", "inputs": [["d", ["S", "dep", []]], ["w", ["H", lab, ["got", "n"], C("dflt")]]],
+                                "logic": ["fn", "echo"]}]
+                sc["cell"] = f"labels label={lab[:12]} site={site} src={cls}"
+                yield sc
+    # (2x) forEach whose inputs mapping ALSO defines the key named by inputKey (static / computed): the item wins
+    for shadow in (C("static"), ["S", "src", ["got", "n"]], ["P", ["spec", "y"]]):
+        for logic, key, items in ((["fn", "echo"], "item", ["a", "b", "c"]), (["fn", "bycls"], "cls", ["ok", "skip", "ok"]),
+                                  (["fn", "bycls"], "cls", ["ok", "retry7"]),
+                                  (["switch", ["I", ["item"]], [["one", ["fn", "echo"], False], ["two", ["fn", "null"], False]]],
+                                   "item", ["one", "two", "one"])):
+            sc = copy.deepcopy(base)
+            sc["steps"] = [{"label": "src", "inputs": [[k, e] for k, e in src_inputs], "logic": ["fn", "bycls"]},
+                           {"label": "fan", "inputs": [["w", C(1)], [key, copy.deepcopy(shadow)], ["cls", C("ok")]][: 3 if key != "cls" else 2],
+                            "foreach": [C(items), key], "logic": copy.deepcopy(logic), "state": [["fan", ["V", []]]]},
+                           {"label": "tail", "inputs": [["d", ["S", "fan", []]]], "logic": ["fn", "echo"]}]
+            sc["cell"] = f"foreach-shadowed-key key={key} shadow={shadow[0]} items={'+'.join(items)}"
+            yield sc
     # (2a) `steps` used AS A WHOLE: it must hold exactly the referenced steps (not more: no other step's, no other
     #      run's, no other workflow's values)
     for which in ("aaa", "bbb", "both", "none"):
@@ -445,7 +479,7 @@ def scenarios(ctx: Ctx):
     special = list(special_scenarios())
     if ctx.quick():
         ctx.rng.shuffle(special)
-        special = sorted(special[:100], key=lambda x: x["cell"])
+        special = sorted(special[:130], key=lambda x: x["cell"])
     for sc in special:
         yield sc
     grid = list(grid_scenarios())
@@ -454,7 +488,7 @@ def scenarios(ctx: Ctx):
         grid = grid[:120]
     for sc in grid:
         yield sc
-    for _ in range(180 if ctx.quick() else 4000):
+    for _ in range(160 if ctx.quick() else 4000):
         yield m.rand_scenario(ctx.rng)
 
 
